@@ -12,13 +12,15 @@ import (
 // single-register verdicts: selector k, arguments, the real call, the oracle's expectation
 func genBits(c *gal.Ctx) {
 	r := c.Rng
+	// knownSig: the verdict a listed finding predicts (only consulted when knownID != "")
+	knownSig := false
 	add := func(kind string, k int, args []uint64, got verd, spec bool, site string, knownID, knownWhat string) {
 		d := map[string]interface{}{"check": kind, "args": args, "got": got}
 		idx := c.Add("bits_"+kind, fmt.Sprintf("CBits %d %s %s", k, gal.UList(args), got.lit()), d, true)
 		switch {
 		case exact(got, spec):
 			c.OracleOK()
-		case knownID != "" && !got.Panic:
+		case knownID != "" && exact(got, knownSig):
 			c.OracleFailKnown(idx, knownID, knownWhat, site, d)
 		default:
 			c.OracleFail(idx, fmt.Sprintf("%s: specified verdict %v, got %+v", kind, spec, got), site, d)
@@ -58,6 +60,7 @@ func genBits(c *gal.Ctx) {
 			// SDM: ECX[11] = 1 means IA32_DEBUG_INTERFACE exists; then it must be locked and disabled
 			// and not forced by the PCH strap. Without the MSR there is nothing to check.
 			spec := !sdbg || (!strap && lock && !en)
+			knownSig = sdbg || (!strap && lock && !en) // the SDBG test inverted
 			add("IA32DebugInterfaceLockedDisabled", 2, []uint64{uint64(ecx), msr}, got, spec, "pkg/test/cpu.go:IA32DebugInterfaceLockedDisabled",
 				"C05-DebugInterface-inverted", "IA32DebugInterfaceLockedDisabled skips the MSR check exactly when CPUID reports the debug interface (SDBG) and reads the MSR when it does not exist")
 		}
